@@ -13,7 +13,7 @@
    Every operation is a function from (W, action) to (W', outcome), built from the PHASES of the real commit
        CheckBound . BuildRevision . SetMasterTip . SetLocalTip . Finish
    so that an action can carry a FAULT: the commit is cut off after the named phase (a transport error between the
-   two tip writes).  UncommitMC-style state machines use the phases one at a time (BoundBranchMC); traces of real
+   two tip writes).  The state machine BoundBranchMC takes the phases one at a time; traces of real
    executions are judged with the same operators (BoundBranchTrace).
 
    Actions as data: [op, c, src, fault]
